@@ -100,6 +100,8 @@ CORPUS = {
         ("z-at-outer-pressure", M, [(GAS, "        z_factor = z_factor_DAK(\n            temperature, pressure, temperature_pseudocritical, pressure_pseudocritical\n        )\n        return 2", "        z_factor = z_factor_DAK(\n            temperature, pressure_standard, temperature_pseudocritical, pressure_pseudocritical\n        )\n        return 2")]),
         ("initial-missing", M, [(FLU, "        initial=0.0,\n    )", "    )")]),
         ("keywords", T, [(FLU, "    return sp.integrate.cumulative_trapezoid(pp, pressure, initial=0.0)", "    return sp.integrate.cumulative_trapezoid(y=pp, x=pressure, initial=0)")]),
+        ("handwritten-trapezoid", T, [(FLU, "    return sp.integrate.cumulative_trapezoid(pp, pressure, initial=0.0)", "    steps = 0.5 * (pp[1:] + pp[:-1]) * np.diff(pressure)\n    return np.concatenate(([0.0], np.cumsum(steps)))")]),
+        ("handwritten-abs-step", M, [(FLU, "    return sp.integrate.cumulative_trapezoid(pp, pressure, initial=0.0)", "    steps = 0.5 * (pp[1:] + pp[:-1]) * np.abs(np.diff(pressure))\n    return np.concatenate(([0.0], np.cumsum(steps)))")]),
         ("factor-inside", T, [(FLU, "    pseudopressure = 2 * cumulative_trapezoid(\n        pvt_gas[\"pressure\"] / (pvt_gas[\"viscosity\"] * pvt_gas[\"z-factor\"]),", "    pseudopressure = cumulative_trapezoid(\n        2 * pvt_gas[\"pressure\"] / pvt_gas[\"viscosity\"] / pvt_gas[\"z-factor\"],")]),
     ],
     "C09": [
